@@ -11,6 +11,8 @@ pub struct Out {
     pub counts: BTreeMap<String, u64>,
     pub samples: BTreeMap<String, Vec<String>>,
     pub dist: BTreeMap<String, u64>,
+    /// when set, nothing is written; failing oracle names are collected instead (used by the shrinker)
+    pub capture: Option<Vec<String>>,
 }
 
 impl Out {
@@ -20,9 +22,16 @@ impl Out {
             counts: BTreeMap::new(),
             samples: BTreeMap::new(),
             dist: BTreeMap::new(),
+            capture: None,
         }
     }
     pub fn emit(&mut self, class: &str, group: &str, impl_out: &str, req: &[&str]) {
+        if let Some(c) = self.capture.as_mut() {
+            if class.starts_with("R:") {
+                c.push(req.first().map(|s| s.to_string()).unwrap_or_default());
+            }
+            return;
+        }
         let _ = write!(self.w, "{}\t{}\t{}", class, group, impl_out);
         for r in req {
             let _ = write!(self.w, "\t{}", r);
@@ -39,6 +48,9 @@ impl Out {
     /// implementation-side oracle; `detail` describes the case so that it can be replayed
     pub fn r(&mut self, prop: &str, group: &str, pass: bool, detail: &[&str]) {
         let class = format!("R:{}", prop);
+        if self.capture.is_some() && pass {
+            return;
+        }
         if pass {
             // passing oracle evaluations are only counted, not written
             *self.counts.entry(format!("{}/{}", class, group)).or_insert(0) += 1;
